@@ -1095,6 +1095,12 @@ func (sm *StyleManager) addTOCStyles() {
 // GetStyleWithInheritance 获取具有继承属性的样式
 // 如果样式基于其他样式，会合并父样式的属性
 func (sm *StyleManager) GetStyleWithInheritance(styleID string) *Style {
+	return sm.resolveStyle(styleID, 0)
+}
+
+// resolveStyle 沿 basedOn 链解析样式；depth 为已经走过的层数。
+// 无环的链长度不会超过已注册样式的数量，超过即说明存在循环引用，此时停止继续向上解析。
+func (sm *StyleManager) resolveStyle(styleID string, depth int) *Style {
 	style := sm.GetStyle(styleID)
 	if style == nil {
 		return nil
@@ -1105,8 +1111,13 @@ func (sm *StyleManager) GetStyleWithInheritance(styleID string) *Style {
 		return style
 	}
 
+	// 循环引用保护（例如 A 基于 B、B 又基于 A）
+	if depth >= len(sm.styles) {
+		return style
+	}
+
 	// 递归获取基础样式
-	baseStyle := sm.GetStyleWithInheritance(style.BasedOn.Val)
+	baseStyle := sm.resolveStyle(style.BasedOn.Val, depth+1)
 	if baseStyle == nil {
 		return style
 	}
